@@ -500,8 +500,6 @@ def _apind_class(inp, x, got):
         alt = np.squeeze(x[tuple(idx2)], axis=tuple(squeeze))
         if alt.shape == got.shape and (alt == got).all():
             return "int+fancy-split"
-    if any(k in ("dalist", "dabool") for k in kinds) and any(0 in c and len(c) > 1 for c in inp["chunks"]):
-        return "zero-chunk+dask-array"
     return None
 
 
